@@ -13,8 +13,8 @@ for **every** expression, context, document and amount of fuel.
 | `shadowing`, `shadowing_let` | lookup returns the nearest binding |
 | `unknown_null` | a name nobody binds is null |
 | `dollar_alias` | `$`, `$1`, the empty name (and `1`) are one variable |
-| `lambda_binds_innermost`, `lambda_dollar` | in a lambda body `$k` is the k-th argument of the innermost application, whatever is bound outside |
-| `closure_lexical`, `ucall_eq` | a `def`-ined function called from any later context gives what it gives in the context it was defined in |
+| `lambda_binds_innermost`, `lambda_dollar`, `get_argFrame`, `with_numbering` | in a lambda body `$k` is the k-th argument of the innermost application, whatever is bound outside |
+| `closure_lexical`, `closure_lexical_args`, `ucall_eq` | a `def`-ined function called from any later context gives what it gives in the context it was defined in |
 | `member_maps` | `coll.name` = `coll.select($.name)` |
 | `fuel_mono` | more fuel never changes a definite outcome |
 | `empty_frame_invisible` | a frame that binds nothing cannot be observed (why the model may elide the call frames of pure builtins) |
@@ -739,5 +739,77 @@ theorem frame_root (n : Nat) (C : Ctx) (e : Expr) (C' : Ctx) (F : Frame) (h : ev
 
 example : ∃ C', eval 5 [{ vars := [(['$', '1'], .int 7)] }] (.call .let_ [] [(.kw ['a'], .lit (.int 1))]) = .ok (.ctx C') ∧
     C' = [{ vars := [(['$', 'a'], .int 1)] }, { vars := [(['$', '1'], .int 7)] }] := ⟨_, rfl, rfl⟩
+
+/-! ## more on parameters and closures -/
+
+/-- the frame of an application / of `with` / of a positional `let` binds `$k` to the k-th value -/
+theorem get_argFrame (D : Ctx) (args : VL) (k : Nat) (h : k < args.length) :
+    Ctx.get (argFrame args [] :: D) (argName (k + 1)) = some args[k] := by
+  have hl := alookup_bindPos args 1 k h
+  rw [Nat.add_comm] at hl
+  simp [Ctx.get, argFrame, bindNamed, normName_argName, hl]
+
+theorem callFn_with (ev : Ev) (C : Ctx) (args : List Expr) :
+    callFn ev C .with_ args [] = (do let vs ← evalList ev C args; pure (.ctx (argFrame vs [] :: C))) := rfl
+
+/-- `with(v1, .., vn) -> $k` is `vk`: numbering starts at 1 -/
+theorem with_numbering (n : Nat) (C : Ctx) (vs : VL) (k : Nat) (h : k < vs.length) (hi : hasIter vs[k] = false) :
+    eval (n + 3) C (.arrow (.call .with_ (vs.map .lit) []) (.var (argName (k + 1)))) = .ok (.val vs[k]) := by
+  rw [eval_succ (n + 2)]
+  simp only [step]
+  rw [eval_succ (n + 1)]
+  simp only [step, callFn_with, evalList_lits, ok_bind, pure_eq, readVar, get_argFrame C vs k h, hi]
+  rfl
+
+/-- lexical closure, general form: if the arguments evaluate alike at two call sites that see the
+    same definition of `f`, the calls give the same result - whatever else the two contexts bind -/
+theorem closure_lexical_args (n : Nat) (C1 C2 : Ctx) (f : Name) (args : List Expr) (kw : List (Expr × Expr))
+    (hf : C1.getFun f = C2.getFun f)
+    (ha : evalList (eval n) C1 args = evalList (eval n) C2 args)
+    (hk : evalList (eval n) C1 (kw.map (·.2)) = evalList (eval n) C2 (kw.map (·.2))) :
+    eval (n + 1) C1 (.ucall f args kw) = eval (n + 1) C2 (.ucall f args kw) := by
+  simp only [eval_succ, step, hf, ha, hk]
+
+/-! ## non-vacuity: concrete instances of the hypotheses above -/
+
+-- shadowing: two frames bind `$x`, the inner one answers
+example : Ctx.get ([{ vars := [(['$', 'y'], .int 0)] }] ++ { vars := [(['$', 'x'], .int 2)] } ::
+    [{ vars := [(['$', 'x'], .int 1)] }]) ['$', 'x'] = some (.int 2) :=
+  shadowing _ _ _ _ _ (by decide) rfl
+
+-- unknown_null: a context that binds other names only
+example : eval 1 [{ vars := [(['$', '1'], .int 5)] }] (.var ['$', 'n', 'o', 'p', 'e']) = .ok (.val .null) :=
+  unknown_null 0 _ _ (by decide)
+
+-- closure_lexical: the caller's frames rebind the free variable `$k` of the body
+example : eval 3 ([{ vars := [(['$', 'k'], .int 2)] }] ++
+      [{ funs := [(['f'], .var ['$', 'k'])] }, { vars := [(['$', 'k'], .int 1)] }]) (.ucall ['f'] [] []) =
+    .ok (.val (.int 1)) := rfl
+example : ∀ G ∈ [({ vars := [(['$', 'k'], .int 2)] } : Frame)], alookup ['f'] G.funs = none := by decide
+
+-- member_maps: a collection of dictionaries satisfies the element hypothesis
+example : ∀ x ∈ [Value.dict [(.str ['a'], .int 1)], Value.dict [(.str ['a'], .int 2)]],
+    Value.isIterable x = false ∧ hasIter x = false := by decide
+
+-- fuel_mono: a definite outcome at fuel 4 is the outcome at fuel 400
+example : eval 400 [] (.bin .add (.lit (.int 1)) (.lit (.int 2))) = .ok (.val (.int 3)) :=
+  fuel_mono (n := 4) (by decide) [] _ _ rfl (by intro h; cases h)
+
+-- frame: `let(..) -> let(..)` hands back two new frames on top of the starting context
+example : Extends [{ vars := [(['$', '1'], .int 7)] }]
+    [{ vars := [(['$', 'b'], .int 2)] }, { vars := [(['$', 'a'], .int 1)] }, { vars := [(['$', '1'], .int 7)] }] :=
+  frame 6 _ (.arrow (.call .let_ [] [(.kw ['a'], .lit (.int 1))]) (.call .let_ [] [(.kw ['b'], .lit (.int 2))])) _ rfl
+
+-- with_numbering / the `$` alias
+example : run 10 .null (.arrow (.call .with_ [.lit (.int 1), .lit (.int 2)] [])
+    (.list [.var ['$'], .var ['$', '1'], .var ['$', '2'], .var ['$', '0'], .var ['$', '3']])) =
+    .ok (.data (.list [.int 1, .int 1, .int 2, .null, .null])) := rfl
+
+-- nested lambdas: the inner `$` is the inner element, the outer one is restored afterwards
+example : run 20 (.tuple [.int 1, .int 2])
+    (.method (.var ['$']) .select [.list [.var ['$'],
+      .method (.method (.list [.lit (.int 10)]) .select [.bin .add (.var ['$']) (.lit (.int 1))] []) .toList [] [],
+      .var ['$']]] []) =
+    .ok (.data (.list [.tuple [.int 1, .tuple [.int 11], .int 1], .tuple [.int 2, .tuple [.int 11], .int 2]])) := rfl
 
 end Yaql.Props.C04
